@@ -118,6 +118,9 @@ def _states_missing(seed):
     out = []
     for k, p, x in itertools.product(["F2", "FL"], ["EM", "NC"], [1e-2, 0.1, 0.6]):
         out.append({"hq": "top", "nfff": 5, "kind": k, "process": p, "obs": "light", "pto": 2, "x": x})
+    # CC at O(a_s^2): no massive CC heavy-quark coefficient exists at this order, so the asymptotic scheme must not have one either (both sides 0)
+    for k, proj in itertools.product(["F2", "FL", "F3"], ["neutrino", "positron"]):
+        out.append({"hq": "charm", "nfff": 3, "kind": k, "process": "CC", "obs": "h", "pto": 2, "x": 0.1, "projectile": proj})
     return out
 
 
